@@ -408,7 +408,7 @@ func (f *Frame) uninterpCall(st *State, prefix string, fv *Term, args []*Term, s
 	return out
 }
 
-var pureIfacePrefixes = []string{consulMod + "/acl.Authorizer.", consulMod + "/agent/structs.ACLIdentity."}
+var pureIfacePrefixes = []string{consulMod + "/acl.Authorizer.", consulMod + "/agent/structs.ACLIdentity.", consulMod + "/agent/structs.ConfigEntry.Get", consulMod + "/agent/consul.aclTypeReplicator."}
 
 func ifaceMethodName(recvT types.Type, fn *types.Func) string {
 	t := types.Unalias(recvT)
